@@ -57,6 +57,8 @@ class Interp:
             s = const_str(o)
             if s is not None:
                 return ("str", s)
+            if "b" in k:
+                return ("bytes", k["b"])
             d = str(k.get("v", k.get("d")))
             if k.get("ty") == "char":
                 cp = parse_char_literal(d)
@@ -85,7 +87,7 @@ class Interp:
                 cur = cur[1][idx] if idx < len(cur[1]) else UNKNOWN
             elif e[0] == "*" and isinstance(cur, tuple) and cur and cur[0] == "ref":
                 cur = self.eval_place(cur[1], st, env)
-            elif e[0] == "*" and isinstance(cur, tuple) and cur and cur[0] == "promoted":
+            elif e[0] == "*" and isinstance(cur, tuple) and cur and cur[0] in ("promoted", "bytes", "str", "array", "fmt", "rec", "disp"):
                 pass
             else:
                 cur = UNKNOWN
@@ -121,6 +123,8 @@ class Interp:
                 return ("tuple", [self.eval_operand(o, st, env) for o in rv["ops"]])
             if rv.get("agg") == "adt":
                 return ("adt", rv["adt"], rv["variant"], [self.eval_operand(o, st, env) for o in rv["ops"]])
+            if rv.get("agg") == "array":
+                return ("array", [self.eval_operand(o, st, env) for o in rv["ops"]])
             return UNKNOWN
         if k == "bin":
             a = self.eval_operand(rv["a"], st, env)
